@@ -30,7 +30,9 @@ def check(run, args):
     hfs = [hf]
     if thorough and full:
         # every behaviour of the small exhaustive configuration (one witness per final state) is replayed as well
-        run.tlc("MC_System.tla", "System_small.cfg", overrides=dict(SysExport="TRUE"), timeout=3000, xmx="12g", count=False)
+        # (without front-matter calls, MaxMeta = 0: that keeps the number of behaviours near 150 k; front matter is covered by
+        # the simulated and the seeded behaviours)
+        run.tlc("MC_System.tla", "System_small.cfg", overrides=dict(SysExport="TRUE", MaxMeta=0), timeout=3000, xmx="12g", count=False)
         hf2 = os.path.join(run.scratch, "system_hists_exhaustive.ndjson")
         shutil.move(src, hf2)
         hfs.append(hf2)
